@@ -239,6 +239,14 @@ var scenarios = []*scenario{
   (channel-pop d)
   n)`,
 		check: all(expectVal("2"), noOverlap, mutexFree), canon: rawVal},
+	{name: "a6-two-producers-consumer-thread", group: "a", quick: 1, thorough: 2,
+		src: `(let ((c (make-channel 1)) (r (make-channel 4)) (out nil))
+  (run (progn (channel-push c 'a1) (channel-push c 'a2)))
+  (run (progn (channel-push c 'b1) (channel-push c 'b2)))
+  (run (dotimes (i 4) (channel-push r (channel-pop c))))
+  (dotimes (i 4) (setq out (add out (channel-pop r))))
+  out)`,
+		check: multisetFIFO([]string{"a1", "a2", "b1", "b2"}, map[string][]string{"a": {"a1", "a2"}, "b": {"b1", "b2"}}), canon: sortedVal},
 	// ---- (c) synchronised objects / hash of counters
 	{name: "c1-hash-of-counters", group: "c", yield: true, quick: 2, thorough: 3,
 		src: `(let ((h (make-hash-table)) (d (make-channel 2)))
@@ -257,6 +265,16 @@ var scenarios = []*scenario{
     (with-mutex-lock the-mutex (setf (slot-value inst 'b) (+ (slot-value inst 'b) 1)))
     (channel-pop d)
     (list (slot-value inst 'a) (slot-value inst 'b))))`,
+		check: all(expectVal("(1 2)"), mutexFree), canon: rawVal},
+	{name: "c3-synchronized-flavor-instance", group: "c", yield: true, quick: 2, thorough: 3,
+		src: `(progn
+  (defflavor c17-cell ((x 0) (y 0)) () :gettable-instance-variables :settable-instance-variables)
+  (let ((inst (make-instance 'c17-cell)) (d (make-channel 2)))
+    (set-synchronized inst t)
+    (run (progn (send inst :set-x 1) (with-mutex-lock the-mutex (send inst :set-y (+ (send inst :y) 1))) (channel-push d t)))
+    (with-mutex-lock the-mutex (send inst :set-y (+ (send inst :y) 1)))
+    (channel-pop d)
+    (list (send inst :x) (send inst :y))))`,
 		check: all(expectVal("(1 2)"), mutexFree), canon: rawVal},
 	// ---- (d) the interpreter's own tables
 	{name: "d1-concurrent-defvar", group: "d", yield: true, quick: 2, thorough: 3,
@@ -392,6 +410,7 @@ func (sc *scenario) build() *sched.Scenario {
 			for _, v := range []string{"c17-v1", "c17-v2"} {
 				_, _ = lisp.EvalIn(scope, "(makunbound '"+v+")")
 			}
+			_, _ = lisp.EvalIn(scope, "(undefflavor 'c17-cell)")
 			if sc.yield {
 				scope.InterruptCheck = vsched.Yield
 			}
